@@ -215,7 +215,25 @@ func (sp SinePacer) Pace(elapsedTime time.Duration, elapsedHits uint64) (time.Du
 		}
 		nextHitIn = time.Duration(float64(nextHitIn) / (hitsAtGuess - float64(elapsedHits)))
 	}
-	return nextHitIn, false
+	// Not converged. hits() increases at no less than Mean-|Amp| (> 0) hits per
+	// nanosecond, so the next hit is due within [0, hi]: bisect that bracket.
+	hi := math.Ceil(hitsToWait / (sp.Mean.hitsPerNs() - math.Abs(sp.Amp.hitsPerNs())))
+	if !(hi >= 0 && hi < float64(math.MaxInt64-elapsedTime)) {
+		return 0, true // no bracket, or the next hit is beyond the representable time
+	}
+	lo, up := time.Duration(0), time.Duration(hi)
+	for up-lo > 1 {
+		mid := lo + (up-lo)/2
+		err := float64(elapsedHits+1) - sp.hits(elapsedTime+mid)
+		if math.Abs(err) < 1e-3 {
+			return mid, false
+		} else if err > 0 {
+			lo = mid
+		} else {
+			up = mid
+		}
+	}
+	return up, false
 }
 
 // Rate returns a SinePacer's instantaneous hit rate (i.e. requests per second)
